@@ -2,3 +2,5 @@ import Tiea.XAlg
 import Tiea.NormSpec
 import Tiea.NormGen
 import Tiea.NormTie
+import Tiea.TermGen
+import Tiea.TermTie
